@@ -22,7 +22,7 @@ EVS = {'CTOR': 8, 'SSUCC': 9, 'DTOR': 10}
 #   cc< ID, R... >         ... from change_control< quiet control >
 #   ea< ID, R... > / da< ID, R... >   enable_action / disable_action
 #   state< i, R... >       the state rule with vstate<i>;  action< T, R... >, control< R... > the rule forms
-PSEUDO = ('cs', 'csd', 'css', 'ca', 'cas', 'casd', 'cc', 'ea', 'da', 'cas_cs', 'cas_da', 'ca_cs')   # x_y: switch x whose NEW action class carries switch y for the SAME rule   # ...d: with a state that is only default-constructible
+PSEUDO = ('cs', 'csd', 'css', 'css2', 'ca', 'cas', 'casd', 'cc', 'ea', 'da', 'cas_cs', 'cas_da', 'ca_cs')   # x_y: switch x whose NEW action class carries switch y for the SAME rule   # ...d: with a state that is only default-constructible
 ACTNAME = {1: 'actA', 2: 'actB'}
 
 
@@ -66,6 +66,12 @@ class Gen13(evgen.EvGen):
             succ = 'sv(%d, %d, x.pos, ost);' % (EVS['SSUCC'], i) if n in ('cs', 'csd') else 'sv(%d, %d, x.pos, ost);' % (EVS['SSUCC'], 40 + i)
             return ('  int ost = cx_st; %s cx_st = %d; out_t x = %s(p, a); cx_st = ost;\n'
                     '  if (x.r == 1 && a) %s\n  sv(%d, %d, 0, 0); return x;' % (ctor, i, f, succ, EVS['DTOR'], i))
+        if n == 'css2':
+            # change_states< vstate<i>, qstate<j> >: exactly the two new states are visible below, whatever the number of outer states
+            i, j = ival(a[0]), ival(a[1])
+            f = s.fn(s.named_of(e, 2))
+            return ('  int ost = cx_st; sv(%d, %d, 0, 0); cx_st = %d; out_t x = %s(p, a); cx_st = ost;\n'
+                    '  if (x.r == 1 && a) sv(%d, %d, x.pos, ost);\n  sv(%d, %d, 0, 0); return x;' % (EVS['CTOR'], i, i + 16 * j, f, EVS['SSUCC'], 40 + i, EVS['DTOR'], i))
         if n == 'ca':
             t = ival(a[0])
             f = s.fn(s.named_of(e, 1, True))
@@ -117,7 +123,7 @@ def cxx(e, act, specs):
     """C++ type text; collects the action-class specialisations that attach the switches"""
     n, a = e.name, e.args
     if n in PSEUDO:
-        skip = {'cs': 1, 'csd': 1, 'css': 1, 'ca': 1, 'cas': 2, 'casd': 2, 'cc': 0, 'ea': 0, 'da': 0, 'cas_cs': 2, 'cas_da': 1, 'ca_cs': 1}[n]
+        skip = {'cs': 1, 'csd': 1, 'css': 1, 'css2': 2, 'ca': 1, 'cas': 2, 'casd': 2, 'cc': 0, 'ea': 0, 'da': 0, 'cas_cs': 2, 'cas_da': 1, 'ca_cs': 1}[n]
         inner_act = act
         if n in ('ca', 'cas', 'casd'):
             inner_act = ival(a[0])
@@ -151,6 +157,13 @@ def cxx(e, act, specs):
             base = ('tao::pegtl::change_states< vf::vstate< %d > >\n{\n   template< typename ParseInput, typename... States >\n'
                     '   static void success( const ParseInput& in, vf::vstate< %d >& /*unused*/, States&&... /*unused*/ )\n   {\n'
                     '      vf::verif_event( vf::EV_STATE_SUCCESS, %d, in.byte(), vf::first_sid< States... >::value );\n   }\n' % (i, i, 40 + i))
+            specs.append('template<> struct %s< %s > : %s};' % (an, ty, base))
+            return ty
+        elif n == 'css2':
+            i, j = ival(a[0]), ival(a[1])
+            base = ('tao::pegtl::change_states< vf::vstate< %d >, vf::qstate< %d > >\n{\n   template< typename ParseInput, typename... States >\n'
+                    '   static void success( const ParseInput& in, vf::vstate< %d >& /*unused*/, vf::qstate< %d >& /*unused*/, States&&... /*unused*/ )\n   {\n'
+                    '      vf::verif_event( vf::EV_STATE_SUCCESS, %d, in.byte(), vf::first_sid< States... >::value );\n   }\n' % (i, j, i, j, 40 + i))
             specs.append('template<> struct %s< %s > : %s};' % (an, ty, base))
             return ty
         elif n == 'ca':
@@ -224,6 +237,7 @@ GRAMMARS = [
     ('change_state', 'named< 0, cs< 1, 1, %s, %s >, %s >' % (S0, S1, S2)),
     ('change_state_star', 'named< 0, star< cs< 1, 1, %s > >, %s >' % (S0, S1)),
     ('change_states', 'named< 0, css< 3, 1, %s >, %s >' % (S0, S1)),
+    ('change_states2', 'named< 0, css2< 3, 2, 1, %s, named< 2, %s > >, %s >' % (S0, S1, S2)),
     ('change_action', 'named< 0, ca< 2, 1, %s, %s >, %s >' % (S0, S1, S2)),
     ('change_action_and_state', 'named< 0, cas< 2, 1, 1, %s, %s >, %s >' % (S0, S1, S2)),
     ('change_control', 'named< 0, cc< 1, %s, %s >, %s >' % (S0, S1, S2)),
